@@ -163,6 +163,162 @@ PRESETS = {"base": [], "compact": [["use_small_heuristics", "Max"], ["fn_params_
 EDITIONS = ["2015", "2018", "2021", "2024"]
 
 
+CYR = dict(zip("abcdefghijklmnopqrstuvwxyzABCDEFGHIJKLMNOPQRSTUVWXYZ", "абцдефгхийклмнопярстувшхызАБЦДЕФГХИЙКЛМНОПЯРСТУВШХЫЗ"))
+WIDE = {c: chr(0xFF21 + ord(c) - 65) if c.isupper() else chr(0xFF41 + ord(c) - 97) for c in CYR}
+
+
+def respell(text, mode):
+    """the same program with the letters of its string literals and comments re-spelled in non-ASCII letters
+    (cyr: 2 bytes, 1 column; wide: 3 bytes, 2 columns); `// rustfmt-` header lines, escapes and `extern "C"` stay"""
+    tab = CYR if mode == "cyr" else WIDE
+    out = []
+    i, n = 0, len(text)
+    state = None            # None | "lc" | "bc" | "str"
+    while i < n:
+        c = text[i]
+        if state is None:
+            if text.startswith("//", i):
+                state = "lc"
+                if text.startswith("// rustfmt-", i):
+                    j = text.find("\n", i)
+                    j = n if j < 0 else j
+                    out.append(text[i:j])
+                    i = j
+                    state = None
+                    continue
+            elif text.startswith("/*", i):
+                state = "bc"
+            elif c == '"':
+                if re.search(r"extern\s*$", text[max(0, i - 10):i]):
+                    j = text.find('"', i + 1)
+                    j = n if j < 0 else j + 1
+                    out.append(text[i:j])
+                    i = j
+                    continue
+                state = "str"
+            elif c == "'":
+                # char literal or lifetime: copy up to 4 chars verbatim
+                m = re.match(r"'(\\.|[^\\'])'", text[i:i + 4])
+                if m:
+                    out.append(m.group(0))
+                    i += len(m.group(0))
+                    continue
+            out.append(c)
+            i += 1
+            continue
+        if state == "lc":
+            if c == "\n":
+                state = None
+            out.append(tab.get(c, c))
+        elif state == "bc":
+            if text.startswith("*/", i):
+                out.append("*/")
+                i += 2
+                state = None
+                continue
+            out.append(tab.get(c, c))
+        else:
+            if c == "\\" and i + 1 < n:
+                out.append(text[i:i + 2])
+                i += 2
+                continue
+            if c == '"':
+                state = None
+                out.append(c)
+            elif c in "{}":
+                out.append(c)
+            else:
+                out.append(tab.get(c, c))
+        i += 1
+    return "".join(out)
+
+
+UNI_FORMS = [
+    'fn f() {\n    match day {\n        "monday_day" | "tuesday_day" | "wednesday_day" | "thursday_day" | "friday_the_day" | "saturday_the_day" => 1,\n        _ => 0,\n    }\n}\n',
+    'fn f() {\n    let message = format!("the quick brown fox {} jumps over the lazy dog {}", first_argument, second_argument);\n}\n',
+    'fn f() {\n    let names = ["alpha_name", "beta_name", "gamma_name", "delta_name", "epsilon_name", "zeta_name", "eta_name", "theta_name"];\n}\n',
+    'fn f() {\n    let v = Config { name: "some configuration name", description: "a rather long description text", short: "s" };\n}\n',
+    'fn f() {\n    call_function("first string argument", "second string argument", "third one").method("chained argument").other("x");\n}\n',
+    'fn f() {\n    let total = "first operand of the sum" + "second operand of the sum" + "third operand" + "fourth";\n}\n',
+    'fn f() {\n    let x = 1; // a trailing comment that is fairly long and may need to move or wrap somewhere\n    let y = 2; /* block */\n}\n',
+    '#[doc = "an attribute with a long documentation string inside of it that goes on"]\n#[cfg(feature = "some_feature_name")]\nfn f() {}\n',
+    'const GREETING: &str = "a constant string that is close to the margin of the page";\nstatic OTHER: &[&str] = &["one", "two", "three", "four", "five", "six", "seven"];\n',
+    'fn f() {\n    if let Some("pattern string one") | Some("pattern string two") | Some("pattern three") = value { body(); }\n}\n',
+    'fn f() {\n    assert_eq!(compute("input text number one"), "expected output text number one", "message {}", detail);\n}\n',
+    'fn f() {\n    let closure = |argument| println!("closure body with a long text inside {}", argument);\n    foo(|x| "short")\n}\n',
+    'enum E {\n    A = "x".len() as isize, // comment on the variant that is long enough to matter here\n    B, /* another */\n}\n',
+    'fn f() -> &\'static str {\n    match kind { Kind::First => "first kind of result text", Kind::Second => "second kind", _ => "other" }\n}\n',
+]
+
+SEL_SNIPPETS = [
+    "use foo::{a, x86_128, x86_64, B, CONST};\nuse bar::{self, Z, b9, b10};\n",
+    "fn main() {\n    let x = vec![  1,2 ];\n    let Some(value) = some_function_with_a_long_name(argument_number_one) else { return; };\n}\n",
+    "impl<T> Trait for Type<T> where T: Bound1 + Bound2 + Bound3 + Bound4 + Bound5 + Bound6 + Bound7 + Bound8 + Bound99 {}\n",
+    "fn f() {\n    let s = match x { A => { // c\n 1 } B => veryyyyyyyyyyyyyyyyyyyyyyyyyyyyyyyyyyyyyyyyyyyyyyyyyyyyyyyyyyyyyyyyyyyyyyyyyyyyyyyyyyyyyyyyyyyy + 2 };\n}\n",
+]
+
+
+def selection_stream(rep, tier, seed):
+    """(c): which style edition is in force is decided by main.rs / config loading from rustfmt.toml keys and flags;
+    run the real binary of the working tree and of the pinned sources on every combination"""
+    import itertools
+    import shutil
+    from concurrent.futures import ThreadPoolExecutor
+    ok, blog, _ = common.build_bins()
+    if not ok:
+        raise RuntimeError("build of /repo binaries failed:\n" + blog)
+    frozen_bin = os.path.join(common.CACHE, "target-frozen", "debug", "rustfmt")
+    if not os.path.exists(frozen_bin):
+        raise RuntimeError("frozen rustfmt binary missing (setup builds it)")
+    env = common.rust_env()
+    env.pop("CARGO_TARGET_DIR", None)
+    root = os.path.join(common.CACHE, "c09sel")
+    shutil.rmtree(root, ignore_errors=True)
+    combos = []
+    for fv, fe, fs, ce, cs, cv in itertools.product([None, "One", "Two"], [None, "2015", "2021", "2024"], [None, "2015", "2024"],
+                                                    [None, "2015", "2024"], [None, "2021", "2024"], [None, "One", "Two"]):
+        combos.append((fv, fe, fs, ce, cs, cv))
+    if tier != "thorough":
+        combos = [c for i, c in enumerate(combos) if c[3:] == (None, None, None) or c[:3] == (None, None, None) or (i + seed) % 5 == 0]
+    jobs = []
+    for ci, (fv, fe, fs, ce, cs, cv) in enumerate(combos):
+        d = os.path.join(root, "c%d" % ci)
+        os.makedirs(d)
+        toml = "".join('%s = "%s"\n' % (k, v) for k, v in (("version", fv), ("edition", fe), ("style_edition", fs)) if v)
+        if toml:
+            open(os.path.join(d, "rustfmt.toml"), "w").write(toml)
+        args = []
+        if ce:
+            args += ["--edition", ce]
+        if cs:
+            args += ["--style-edition", cs]
+        if cv:
+            args += ["--config", "version=%s" % cv]
+        for si, sn in enumerate(SEL_SNIPPETS):
+            jobs.append((d, toml, args, si, sn))
+
+    def one(j):
+        d, toml, args, si, sn = j
+        r = []
+        for exe in (common.bin_path("rustfmt"), frozen_bin):
+            rc, o, e = common.sh([exe] + args, cwd=d, env=env, input=sn, timeout=60)
+            r.append((rc, o, e))
+        return r
+
+    with ThreadPoolExecutor(max_workers=common.NCPU) as ex:
+        res = list(ex.map(one, jobs))
+    found = 0
+    for (d, toml, args, si, sn), ((rc1, o1, e1), (rc2, o2, e2)) in zip(jobs, res):
+        if rc2 != 0:
+            continue      # the pinned release rejects this combination
+        if (rc1, o1) != (rc2, o2):
+            if rep.violation("selection_differs_from_pinned:%d" % si, {"rustfmt_toml": toml, "args": args, "input": sn, "pinned": [rc2, o2], "current": [rc1, o1], "stderr": e1[-400:]},
+                             "with rustfmt.toml %r and flags %r the working tree's binary prints a different result than the pinned release for snippet %d" % (toml, args, si)):
+                found += 1
+    shutil.rmtree(root, ignore_errors=True)
+    return len(jobs), found
+
+
 def hkey(s):
     return int(hashlib.sha1(s.encode()).hexdigest()[:8], 16)
 
@@ -201,6 +357,20 @@ def run(tier, seed, replay):
             cfg = pool.merged([kv for kv in p["header"] if kv[0] not in ("style_edition", "version")], [["max_width", w], ["style_edition", ed]] + PRESETS[pr])
             cases.append({"text": p["text"], "config": cfg, "again": False, "lex": False})
             meta.append((p["id"], pr, w, ed))
+    # non-ASCII re-spellings (string / comment text in 2-byte letters of width 1, or 3-byte letters of width 2) and one
+    # width per program drawn from 20..200: against the frozen build any input is fair, equality holds by construction
+    for p in P:
+        for mode in ("cyr", "wide", "anyw"):
+            h = hkey("%s|%s" % (p["id"], mode))
+            if replay or (tier != "thorough" and h % (MOD * 2) != seed % (MOD * 2)):
+                continue
+            w = str(20 + (h // 64) % 181)
+            pr = list(PRESETS)[(h // 7) % len(PRESETS)]
+            text = p["text"] if mode == "anyw" else respell(p["text"], mode)
+            for ed in EDITIONS:
+                cfg = pool.merged([kv for kv in p["header"] if kv[0] not in ("style_edition", "version")], [["max_width", w], ["style_edition", ed]] + PRESETS[pr])
+                cases.append({"text": text, "config": cfg, "again": False, "lex": False})
+                meta.append((p["id"] + "#" + mode, pr, w, ed))
     # the synthetic forms of C01 (statement / pattern / expression / item forms x layout presets x widths) under every edition
     if not replay or rp["pool_id"].startswith("synth/"):
         from . import c01
@@ -214,6 +384,20 @@ def run(tier, seed, replay):
             for ed in EDITIONS:
                 cases.append({"text": text, "config": [kv for kv in cfg if kv[0] != "style_edition"] + [["style_edition", ed]], "again": False, "lex": False})
                 meta.append(("synth/" + name, "syn%d" % si, w, ed))
+    # forms whose layout depends on how the width of non-ASCII text is measured (bytes / chars / columns)
+    if not replay:
+        for fi, form in enumerate(UNI_FORMS):
+            for mode in ("cyr", "wide"):
+                text = respell(form, mode)
+                for w in range(20, 131):
+                    if tier != "thorough" and (w + fi + seed) % 3:
+                        continue
+                    for ed in EDITIONS:
+                        cases.append({"text": text, "config": [["max_width", str(w)], ["style_edition", ed]], "again": False, "lex": False})
+                        meta.append(("uniform/%d#%s" % (fi, mode), "base", str(w), ed))
+    if replay and "input" in rp:
+        cases = [{"text": rp["input"], "config": rp["config"], "again": False, "lex": False}]
+        meta = [(rp["pool_id"], rp["preset"], rp["width"], rp.get("style_edition", "?"))]
     cur = common.run_vh_pool("pool", cases, per_case_timeout=15)
     ref = common.run_vh_pool("", [{"text": c["text"], "config": c["config"]} for c in cases], per_case_timeout=15, exe=common.FROZEN_EXE)
     n_judged = n_old = 0
@@ -244,6 +428,8 @@ def run(tier, seed, replay):
                 if rep.violation("old_editions_differ:%s" % pid, {"pool_id": pid, "preset": pr, "width": w, "outs": outs},
                                  "style editions 2015/2018/2021 produce different text for %s, preset %s, max_width %s" % (pid, pr, w)):
                     found += 1
+    nsel, fsel = selection_stream(rep, tier, seed) if not replay else (0, 0)
+    found += fsel
     if not cr.ok and found == 0:
         what = "the regenerated gate / default theorems no longer check: failed=%s hygiene=%s assumptions=%s unclassified=%r mac_ok=%s" % (cr.failed_files, cr.hygiene, cr.bad_assumptions, unclassified[:5], mac_ok)
         log(cr.build_log[-1500:])
@@ -251,7 +437,8 @@ def run(tier, seed, replay):
     rep.coverage.update({
         "evaluations": len(cases), "distinct_nontrivial": len(nontrivial),
         "judged_against_pinned": n_judged, "old_edition_triples_compared": n_old,
-        "rule": "(a) regenerated theorems: every StyleEdition literal in formatting code is the right operand of an ordering comparison that is constant on {2015,2018,2021}; every option default is shared by them; the order is the declared one. (b) differential: pool x presets %s x max_width %s x style editions %s (thorough: all; quick: the 1/%d slice selected by the seed), plus the synthetic forms stream of C01 (forms x 4 layout presets x widths) under every edition: the working tree's output must equal the frozen pinned build's for every input the pinned build formats without error, and 2015 = 2018 = 2021 on the working tree. non-trivial = the pinned build changes the text; distinct by (program, preset, width, edition)" % (list(PRESETS), GRID_W, EDITIONS, MOD),
+        "rule": "(a) regenerated theorems: every StyleEdition literal in formatting code is the right operand of an ordering comparison that is constant on {2015,2018,2021}; every option default is shared by them; the order is the declared one. (b) differential: pool x presets %s x max_width %s x style editions %s (thorough: all; quick: the 1/%d slice selected by the seed), plus the synthetic forms stream of C01 (forms x 4 layout presets x widths) under every edition, plus non-ASCII re-spellings of pool programs (string and comment text in 2-byte / double-width letters) and a width drawn from 20..200 per program, plus 14 forms whose layout depends on the measured width of non-ASCII text at every max_width 20..130: the working tree's output must equal the frozen pinned build's for every input the pinned build formats without error, and 2015 = 2018 = 2021 on the working tree. non-trivial = the pinned build changes the text; distinct by (program, preset, width, edition). (c) how the style edition is chosen: the real binaries of the working tree and of the pinned sources are run on %d discriminating snippets under every combination of rustfmt.toml keys (version, edition, style_edition) and command-line flags (--edition, --style-edition, --config version=): same exit status and text" % (list(PRESETS), GRID_W, EDITIONS, MOD, len(SEL_SNIPPETS)),
+        "selection_runs": nsel,
         "samples": [{"pool_id": m[0], "preset": m[1], "width": m[2], "style_edition": m[3]} for m in meta[:4]],
         "programs": len(set(m[0] for m in meta)),
         "harness_build_s": round(bt, 1), "frozen_build_s": round(btf, 1),
